@@ -1,7 +1,7 @@
 (* C18 - data preparation is invertible; validation gates every entry point
    atomically.  Statements only (exact reals: "to numerical precision" = exactly). *)
 From Coq Require Import List Bool Arith Reals.
-From ART Require Import Num NumR Vec Search Kernel BaseArt Fuzzy Prep Prep_R.
+From ART Require Import Num NumR Vec Search Kernel BaseArt Fuzzy Prep Prep_R Prep_whole.
 Import ListNotations.
 Open Scope R_scope.
 
@@ -29,6 +29,35 @@ Theorem C18_reject_atomic :
     valid K s X = false ->
     fit K s X veto m eps = None /\ partial_fit K s X veto m eps = None /\ predict K s X = None.
 Proof. exact reject_atomic. Qed.
+(* whole calls: the first prepare_data computes the bounds from the data itself *)
+Theorem C18_first_call_output_in_unit_cube :
+  forall d (X : list (list R)), rect d X -> nonconstant X ->
+    Forall (Forall (fun a => 0 <= a <= 1)) (fst (@prepare RN None X)).
+Proof. exact prepare_first_in_range. Qed.
+Theorem C18_first_call_restored_exactly :
+  forall d (X : list (list R)), X <> [] -> rect d X -> nonconstant X ->
+    @restore RN (snd (@prepare RN None X)) (fst (@prepare RN None X)) = Some X.
+Proof. exact restore_prepare_first. Qed.
+Theorem C18_first_call_fuzzy_double_width_and_valid :
+  forall d (X : list (list R)), rect d X -> nonconstant X ->
+    Forall (fun y => @fuzzy_valid RN y = true /\ length y = (2 * d)%nat) (fst (@prepare_fuzzy RN None X)).
+Proof. exact prepare_fuzzy_first_valid. Qed.
+Theorem C18_first_call_fuzzy_restored_exactly :
+  forall d (X : list (list R)), X <> [] -> rect d X -> nonconstant X ->
+    @restore_fuzzy RN (snd (@prepare_fuzzy RN None X)) (fst (@prepare_fuzzy RN None X)) = Some X.
+Proof. exact restore_prepare_fuzzy_first. Qed.
+Theorem C18_later_data_inside_the_first_bounds :
+  forall (lo hi : list R) Y,
+    Forall2 (fun l h => l < h) lo hi -> Forall (fun y => Forall2 Rle lo y /\ Forall2 Rle y hi) Y ->
+    Forall (Forall (fun a => 0 <= a <= 1)) (fst (@prepare RN (Some (lo, hi)) Y)) /\
+    snd (@prepare RN (Some (lo, hi)) Y) = Some (lo, hi).
+Proof. exact prepare_later_in_range. Qed.
+Theorem C18_later_data_restored_exactly :
+  forall (lo hi : list R) Y,
+    Forall2 (fun l h => l < h) lo hi -> Forall (fun y => length y = length lo) Y ->
+    @restore RN (Some (lo, hi)) (fst (@prepare RN (Some (lo, hi)) Y)) = Some Y.
+Proof. exact restore_prepare_later. Qed.
+Print Assumptions C18_first_call_fuzzy_restored_exactly.
 Print Assumptions C18_denormalize_normalize.
 Print Assumptions C18_prepared_data_passes_validation.
 
